@@ -128,6 +128,7 @@ class Helper:
             for n in ast.walk(node))
         self.has_nested = any(isinstance(n, (*FuncNode, ast.ClassDef)) for n in own)
         self.body = _strip_doc(node.body)  # type: ignore[attr-defined]
+        self.tail_only = False  # only `return helper(...)` sites can take the body
 
     def gen_ok(self) -> bool:
         """A generator whose every `yield` is a statement and that never returns early."""
@@ -260,8 +261,9 @@ class Inliner:
                 self.log.append(f"{key}: new, not inlinable (ambiguous name, decorator, signature, generator shape or recursion)")
                 continue
             if not h.is_gen and not h.returns_ok():
-                self.log.append(f"{key}: new, not inlinable (return inside a loop / try / with)")
-                continue
+                # a `return` inside a loop / try / with: the body can still replace a `return helper(...)`
+                # statement as it stands (its returns become the caller's)
+                h.tail_only = True
             out.append(h)
         return out
 
@@ -386,8 +388,37 @@ class Inliner:
                 self.log.append(f"hook `{hook}`: resolved per class and removed")
         return n
 
+    def delegations(self) -> int:
+        """An async method that delegates to its own sync twin (`for m in self.resolve((match,)): yield m`
+        inside `resolve_async`) reads as if the twin's body were written there: the sync half awaits nothing,
+        so this is what runs.  The twin itself stays."""
+        n = 0
+        for mod, tree in self.trees.items():
+            for c in [x for x in tree.body if isinstance(x, ast.ClassDef)]:
+                methods = self._methods(c)
+                for name, m in methods.items():
+                    twin = methods.get(name + "_async")
+                    if twin is None or isinstance(m, ast.AsyncFunctionDef):
+                        continue
+                    if not any(isinstance(x, ast.Call) and isinstance(x.func, ast.Attribute) and x.func.attr == name
+                               and isinstance(x.func.value, ast.Name) and x.func.value.id == "self" for x in _own_nodes(twin)):
+                        continue
+                    h = Helper(f"{mod}.{c.name}.{name}", c, m, c.body)
+                    h.receiver = "self"
+                    if not h.plain or not h.simple_sig or h.recursive or h.has_nested or (h.is_gen and not h.gen_ok()):
+                        continue
+                    if not h.is_gen and not h.returns_ok():
+                        h.tail_only = True
+                    for _ in range(8):
+                        if self._inline_one(twin, h) is None:
+                            break
+                        n += 1
+                        self.log.append(f"{h.key}: body written into its async twin, which delegated to it")
+        return n
+
     def run(self) -> int:
         total = self.devirtualise()
+        total += self.delegations()
         for _round in range(4):
             n = 0
             for h in self.candidates():
@@ -598,7 +629,7 @@ class Inliner:
         if h.is_gen:
             return self._inline_generator(fn, h)
         # 1. expression form anywhere
-        ef = _expr_form(h.body)
+        ef = None if h.tail_only else _expr_form(h.body)
         for blk in _stmt_lists(fn):
             for i, s in enumerate(blk):
                 for call in [n for n in _shallow(s) if self._is_call_of(n, h)]:
@@ -643,6 +674,8 @@ class Inliner:
                             b_ = _loc(ast.Assign(targets=copy.deepcopy(s.targets), value=ie.orelse), s)
                         blk[i] = _loc(ast.If(test=ie.test, body=[a_], orelse=[b_]), s)
                         return True
+                    if h.tail_only and site != "return":
+                        continue
                     if site is None:
                         # nested in a larger expression: bind it to a temporary first (S9 undoes this
                         # once the body is in place), if nothing with effects is evaluated before it
